@@ -154,6 +154,32 @@ def _decoy_missing(obj):
     return obj
 
 
+def _decoy_times(obj):
+    """the same arguments with every time array flattened to its first stamp (a different time axis of the same length); used when
+    a parameter *object* is passed, which could remember something about an earlier call's inputs"""
+    import numpy as np
+    if isinstance(obj, snp.ndarray):
+        if obj._dt.kind == "M" and obj.a.size > 1:
+            return snp.ndarray.from_list([obj.a.flat[0]] * obj.a.size, obj._dt).reshape(obj.a.shape)
+        return obj
+    if isinstance(obj, np.ndarray):
+        if obj.dtype.kind == "M" and obj.size > 1:
+            return np.full(obj.shape, obj.flat[0], dtype=obj.dtype)
+        return obj
+    if isinstance(obj, tuple):
+        return tuple(_decoy_times(x) for x in obj)
+    if isinstance(obj, dict):
+        return {k: _decoy_times(v) for k, v in obj.items()}
+    return obj
+
+
+def _has_parameter_object(args, kwargs):
+    import numpy as np
+    from symex.values import Sym
+    plain = (snp.ndarray, np.ndarray, np.generic, Sym, str, bytes, int, float, bool, list, tuple, dict, type(None))
+    return any(not isinstance(x, plain) and hasattr(x, "__dict__") for x in list(args) + list(kwargs.values()))
+
+
 def _globals_snapshot(mod):
     out = []
     for k, v in vars(mod).items():
@@ -311,7 +337,9 @@ class PreHistory:
                     return f
 
                 def wrapped(*a, **k):
-                    for dec in (_decoy_missing, _decoy):
+                    # (the call on another time axis comes first: whatever a parameter object remembers, it remembers from there)
+                    decs = ((_decoy_times,) if _has_parameter_object(a, k) else ()) + (_decoy_missing, _decoy)
+                    for dec in decs:
                         try:
                             f(*dec(a), **dec(k))
                         except Exception:
@@ -356,7 +384,10 @@ def jobs(tier):
     MM = c08.MemberShape
     hist = [c03.GrossRange(2, True), c09.Spike(3, "average", True, True), c10.RateOfChange(2), c10.Speed(2), c13.Density(2, True, True),
             c13.Pressure(3), c14.Location(3, "given", True), c11.FlatLine(3, 60), c12.Attenuated(2, "range", True),
-            c08.Climatology(1, [MM("month", True, True)], prop="C01"), c03.ValidRange(2, "float64", True, False)]
+            c08.Climatology(1, [MM("month", True, True)], prop="C01"), c03.ValidRange(2, "float64", True, False),
+            # a configuration *object* reused across calls on different time axes
+            c08.Climatology(2, [MM("month", True, False)], as_object=True, prop="C01"),
+            c08.Climatology(2, [MM("week", False, False), MM(None, True, False)], as_object=True, prop="C01")]
     out += [Historied(b) for b in hist]
     n = 2 if tier == "quick" else 3
     M = c08.MemberShape
